@@ -124,6 +124,11 @@ fn render(t: &mut Toks) -> String {
                 let (a, s, ps, name) = (t.u64(), t.u64(), t.u64(), t.u64());
                 writeln!(text, "FUNC {}{:x} {:x} {:x} {}", mflag(name), a, s, ps, self::name('f', name)).unwrap();
             }
+            "Z" => {
+                // a FUNC line made over-long (> MAX_BUFFER_CAPACITY) by padding its name: the parse loop drops it
+                let (a, s, ps, name, len) = (t.u64(), t.u64(), t.u64(), t.u64(), t.usize());
+                writeln!(text, "FUNC {:x} {:x} {:x} {}{}", a, s, ps, self::name('f', name), "x".repeat(len)).unwrap();
+            }
             "L" => {
                 let (a, s, ln, fl) = (t.u64(), t.u64(), t.u64(), t.u64());
                 writeln!(text, "{:x} {:x} {} {}", a, s, ln, fl).unwrap();
